@@ -13,7 +13,7 @@ META = {
  ),
  "C16": dict(
   technique="Lean 4 proof (round-trip and soundness of a regex-equivalent matcher, holder order/description/error theorems by induction over the comment block) + pinned regex text + differential correspondence with annotations.NewAnnotationHolder",
-  text="parse(render a) = a is a Lean theorem for every written annotation satisfying an explicit decidable well-formedness predicate (any name, any value over the class, any JSON text, any description); soundness (nothing invented), source order, the description rule and 'malformed JSON5 is an error' are theorems over every comment block. The matcher is tied to the code by the regenerated regex text (a changed regex breaks a proof obligation) and by tens of thousands of generated comment blocks pushed through go/parser and the real holder, with intent-based round-trip checks on the implementation's own answers.",
+  text="parse(render a) = a is a Lean theorem for every written annotation satisfying an explicit decidable well-formedness predicate (any name, any value over the class, any JSON text, any description); soundness (nothing invented), source order, the description rule and 'malformed JSON5 is an error' are theorems over every comment block. The matcher is tied to the code by the regenerated regex text (a changed regex breaks a proof obligation) and by tens of thousands of generated comment blocks pushed through go/parser and the real holder, with intent-based round-trip checks on the implementation's own answers; a project-level stream places one annotation line (half of them malformed JSON5) in the doc comment of controllers, routes, declarations, struct fields and enum constants and requires the real pipeline to fail exactly where the comment is one gleece reads.",
   note="Trusted: Lean kernel, standard axioms, hand-written matcher vs RE2 semantics (sampled), json5 library as a parameter. Partial: round trip needs the unambiguity hypothesis; its failure is the open finding C16-F1.",
  ),
  "C01": dict(
@@ -67,9 +67,9 @@ META = {
   note="Holds after fix 4ee7fb4 (nil checks in both converters).",
  ),
  "C10": dict(
-  technique="Lean 4 proof (soundness of the validator model clause by clause: returns, link validator passes, body/form exclusion; `blocks` decided on regenerated call skeletons) + differential correspondence of real diagnostics on generated and perturbed projects",
-  text="Acceptance implies the well-linkedness clauses (returns error/(T,error), every binding references a parameter, every parameter referenced, every {name} of the method route bound, aliases name {names}, one body at most and never with form fields) as Lean theorems over the validator model for all methods; that an error diagnostic blocks all output is decided on call skeletons regenerated from pipeline.go and entrypoint.go. The model is tied to the real validators by exact equality of the diagnostic multisets on generated projects incl. all single/double perturbations, and the property's own definition is evaluated against the real verdict per route.",
-  note="Partial: completeness direction and the controller-prefix part are checked per case, not proved; open findings C10-F1, C10-F2.",
+  technique="Lean 4 proof (soundness of the validator model clause by clause: returns, link validator passes, body/form exclusion; injectivity of the {name} <-> @Path link by induction over the validator's passes; cross-layer theorems connecting the validators, the reducer and the url template: an accepted route's reduced path parameters are, one to one, the {names} of the full template; `blocks` decided on regenerated call skeletons) + differential correspondence of real diagnostics on generated and perturbed projects",
+  text="Acceptance implies the well-linkedness clauses (returns error/(T,error), every binding references a non-context parameter, every parameter referenced, every {name} of the FULL template - controller prefix + the method's first @Route - bound, {names} and URL names pairwise distinct, aliases name {names}, one body at most and never with form fields) as Lean theorems over the validator model for all methods; `accepted_route_path_params_partial` carries this through the reducer model to the path parameters the emitters document. That an error diagnostic blocks all output is decided on call skeletons regenerated from pipeline.go and entrypoint.go. The model is tied to the real validators by exact equality of the diagnostic multisets on generated projects incl. all single/double perturbations (30 kinds), and the property's own definition is evaluated against the real verdict per route.",
+  note="Partial: the completeness direction (well-linked => accepted) is checked per case, not proved; the inclusion 'every un-aliased @Path names a {name}' is hypothesis hF2 of the bijection theorems = open finding C10-F2 (its repair is pinned away by test/diagnostics). Fixed: C10-F1, F3 (prefix parameters), F4 (last vs first @Route), F5 (URL-name collision), F6 (context bound by an annotation) - the last three found by the proof attempts.",
  ),
  "C18": dict(
   technique="Lean 4 proof (first-occurrence search: a found range covers text equal to the value, lies inside the text, start<=end, and exists for every contiguous value - rune arithmetic for all texts) + source-slicing correspondence on real diagnostics",
@@ -88,8 +88,8 @@ META = {
  ),
  "C20": dict(
   technique="Lean 4 proof (permission strings accepted by the declared regex are parsed to a mode <= 0o777 which is the mode written; required / omitempty tag semantics; reported tag is one of the field's tags; package default) + kernel-decided facts on regenerated artefacts (struct tree + validate tags reflected from GleeceConfig; LoadGleeceConfig validates and returns before getFullMetadata; every command loads the configuration first; mode computed before WriteFile) + differential correspondence of the schema interpreter with the real command",
-  text="The tag semantics and the permission parser are Lean definitions with theorems for every string; the struct tree they are applied to is reflected from /repo on every run; the up-front order is decided on regenerated call skeletons of cmd/entrypoint.go. Each run feeds >130 configuration documents (every single-field corruption of a valid configuration, all engines/versions/permission strings/glob sets) to the real command and compares rejection reports, absence of output on rejection, and paths/modes/package/engine/version/info/servers/schemes/controllers on acceptance.",
-  note="Findings: C20-F1 (missing commonConfig accepted, open), C20-F2 (malformed-for-OpenAPI security scheme refused only after the routes file was written, open), C20-F3 (starts_with_letter looked at the first byte; fixed 3a6f899).",
+  text="The tag semantics and the permission parser are Lean definitions with theorems for every string; the struct tree they are applied to is reflected from /repo on every run; the up-front order is decided on regenerated call skeletons of cmd/entrypoint.go. controllerGlobs are evaluated by a Lean model of the doublestar patterns in use (`*`, `?`, `**` components, `{a,b}`) with theorems for literal patterns and for `**`. Each run feeds >200 configuration documents (every single-field corruption of a valid configuration, all engines/versions/permission strings, 17 glob sets over a three-level project tree) to the real command and compares rejection reports, absence of output on rejection, and paths/modes/package/engine/version/info/servers/schemes/controllers on acceptance.",
+  note="Findings: C20-F1 (missing commonConfig accepted, open), C20-F2 (spec failure after the routes file was written; fixed 41f6717), C20-F3 (starts_with_letter looked at the first byte; fixed 3a6f899), C20-F4 (a glob matching directories failed the run; fixed 4620e58).",
  ),
  "C07": dict(
   technique="Lean 4 proof (components = image of the reachability closure under a per-declaration function: soundness by induction over the closure rounds, completeness of any closed superset of the roots by induction over reachability, non-interference and monotonicity as corollaries, properties = JSON-visible fields) + differential correspondence with components.schemas of both emitted documents on generated type-graph projects",
